@@ -1085,7 +1085,6 @@ func TestC02(t *testing.T) { runLedger(t, "C02") }
 func TestC06(t *testing.T) { runLedger(t, "C06") }
 func TestC08(t *testing.T) { runLedger(t, "C08") }
 func TestC09(t *testing.T) { runLedger(t, "C09") }
-func TestC10(t *testing.T) { runLedger(t, "C10") }
 func TestC11(t *testing.T) { runLedger(t, "C11") }
 
 // ---------------- shrinking (delta debugging on the op list) ----------------
